@@ -29,7 +29,7 @@ def run(chk):
     # byte strings of length <= 4: memory safety and the cut-off clause
     if T:
         chk.absorb(vlib.run_sharded(fast, 65536, chk.seed, chk.tier, ['--mode', 'bytes', '--stride', 1, '--fastthrow', 1], tag='c14f', timeout=3600), 'byte-strings-all-2^32(fast+guard-page)')
-        chk.absorb(vlib.run_sharded(asan, 65536, chk.seed, chk.tier, ['--mode', 'bytes', '--stride', 31], tag='c14g'), 'byte-strings-strided(asan)')
+        chk.absorb(vlib.run_sharded(asan, 65536, chk.seed, chk.tier, ['--mode', 'bytes', '--stride', 61], tag='c14g', timeout=7200), 'byte-strings-strided(asan)')
     else:
         chk.absorb(vlib.run_sharded(asan, 65536, chk.seed, chk.tier, ['--mode', 'bytes', '--stride', 509], tag='c14g'), 'byte-strings-strided(asan)')
     # complete blocks at the borders of every lead-byte / second-byte class (incl. all strings of length <= 1), under asan
